@@ -54,6 +54,7 @@ def icfg : ICfg :=
   { shift := Gen.C17.ioprioShift
     cGuard := Gen.C17.ioprioCGuard
     cDataGuard := Gen.C17.ioprioCDataGuard
+    cGuardOSError := Gen.C17.ioprioCGuardOSError
     pyClassGuard := Gen.C17.ioprioPyClassGuard
     pyValueRange := Gen.C17.ioprioPyValueRange
     pyNoValueClasses := Gen.C17.ioprioPyNoValueClasses }
